@@ -1374,3 +1374,254 @@ def conf_refusable_options() -> list[tuple[str, str, bytes]]:
         for v in (b'', b'\x01\x02', bytes(22)):
             out.append(('hint-option', f'type-{t:#04x}-len{len(v)}', conf_opt(t, v)))
     return out
+
+
+# =============================================================================
+# Stateful surfaces (C17 'ertm-state', 'rfcomm-open', 'avdtp-state'): hostile-but-parseable frames whose
+# state fields are set relative to the TRUE protocol state, and the reference models that say what a
+# correct entity on the other side must still be able to do afterwards.
+# =============================================================================
+
+# ---- ERTM sequence state (Core Vol 3 Part A 3.3.2 enhanced control field, 8.6.5 state tables) ----------------
+ERTM_S_NAMES = ('rr', 'rej', 'rnr', 'srej')
+
+
+def ertm_parse(pdu: bytes):
+    """Enhanced control field + payload of one ERTM PDU (no FCS), or None when shorter than a control field."""
+    if len(pdu) < 2:
+        return None
+    c = pdu[0] | (pdu[1] << 8)
+    if c & 1:
+        return {'t': 's', 's': (c >> 2) & 3, 'p': (c >> 4) & 1, 'f': (c >> 7) & 1, 'req': (c >> 8) & 0x3F,
+                'rsv': c & 0xC062, 'payload': pdu[2:]}
+    return {'t': 'i', 'tx': (c >> 1) & 0x3F, 'f': (c >> 7) & 1, 'req': (c >> 8) & 0x3F, 'sar': (c >> 14) & 3,
+            'payload': pdu[2:]}
+
+
+class ErtmSeqModel:
+    """Sequence variables of the hand-written ERTM peer, and what its frames mean to a correct receiver.
+
+    my_tx        TxSeq of the peer's next new I-frame (= the victim's ExpectedTxSeq)
+    rx_expected  TxSeq of the victim's next new I-frame (everything below was received in order)
+    acked        the highest ReqSeq the peer validly sent (= the victim's ExpectedAckSeq)
+    A ReqSeq is valid iff acked <= ReqSeq <= rx_expected (mod 64): it acknowledges only frames that were sent
+    (8.6.5.? 'ReqSeq sequence error': anything else acknowledges frames never sent; the receiver closes the channel
+    or ignores the acknowledgment - in both cases its own sequence variables must stay those of the true history)."""
+
+    def __init__(self, victim_window: int, victim_mps: int = 256):
+        self.W = victim_window
+        self.mps = victim_mps
+        self.my_tx = 0
+        self.rx_expected = 0
+        self.acked = 0
+        self.victim_req = 0          # last ReqSeq received from the victim
+        self.undefined = None        # why the rest of this channel's life is not judged (SAR sequence of hostile frames)
+        self.hostile_sdus = 0        # complete SDUs hostile in-sequence I-frames delivered
+
+    def outstanding(self) -> int:
+        return (self.rx_expected - self.acked) % 64
+
+    def req_valid(self, req: int) -> bool:
+        return (req - self.acked) % 64 <= self.outstanding()
+
+    def note_sent(self, pdu: bytes) -> str:
+        """Account for one PDU the peer sends; returns its class relative to the true state."""
+        f = ertm_parse(pdu)
+        if f is None:
+            return 'shorter-than-control-field'
+        valid = self.req_valid(f['req'])
+        ahead = (f['req'] - self.rx_expected) % 64
+        if valid:
+            self.acked = f['req']
+            rk = 'reqseq-valid'
+        elif ahead == self.W:
+            rk = 'reqseq-one-window-ahead'
+        elif ahead < self.W:
+            rk = 'reqseq-ahead-within-window'
+        else:
+            rk = 'reqseq-invalid-other'
+        if f['t'] == 's':
+            return f"s-{ERTM_S_NAMES[f['s']]}/{rk}"
+        if f['tx'] != self.my_tx:
+            return f'i-out-of-sequence/{rk}'
+        self.my_tx = (self.my_tx + 1) % 64
+        if f['sar'] != 0:
+            self.undefined = 'hostile in-sequence I-frame with a SAR field other than unsegmented'
+        elif len(f['payload']) > self.mps:
+            self.undefined = 'hostile in-sequence I-frame larger than the MPS'
+        elif not valid:
+            # (a receiver may take the data of a frame whose acknowledgment it refuses, or drop the frame: the
+            # peer learns which from the answer to its next poll)
+            pass
+        else:
+            self.hostile_sdus += 1
+        return f'i-in-sequence/{rk}'
+
+
+ERTM_KIND_S, ERTM_KIND_I, ERTM_KIND_PRIME, ERTM_KIND_RAW = 0, 1, 2, 3
+
+
+def ertm_script(kind, s=0, req_off=0, tx_off=0, p=0, f=0, rsv=0) -> bytes:
+    """A hostile ERTM frame described relative to the true sequence state at the moment it is sent:
+    ReqSeq = victim's NextTxSeq + req_off, TxSeq = victim's ExpectedTxSeq + tx_off (mod 64)."""
+    return bytes([kind, s, req_off & 0x3F, tx_off & 0x3F, p, f, rsv])
+
+
+def ertm_script_name(sc: bytes) -> str:
+    kind, s, req_off, tx_off, p, f, rsv = sc[:7]
+    if kind == ERTM_KIND_PRIME:
+        return 'valid SDU, echo left unacknowledged'
+    if kind == ERTM_KIND_S:
+        return (f"{ERTM_S_NAMES[s].upper()} ReqSeq=NextTxSeq+{req_off}{' P' if p else ''}{' F' if f else ''}"
+                f"{' reserved-bits' if rsv else ''}")
+    return f"I-frame TxSeq=ExpectedTxSeq+{tx_off} ReqSeq=NextTxSeq+{req_off}{' F' if f else ''}"
+
+
+def ertm_script_bytes(sc: bytes, model: ErtmSeqModel, payload: bytes) -> bytes:
+    kind, s, req_off, tx_off, p, f, rsv = sc[:7]
+    if kind == ERTM_KIND_PRIME:
+        return ertm_i(model.my_tx, model.acked) + payload
+    req = (model.rx_expected + req_off) % 64
+    if kind == ERTM_KIND_S:
+        b = bytearray(ertm_s(s, req, p=p, f=f))
+        if rsv:
+            b[0] |= 0x60 if rsv & 1 else 0
+            b[1] |= 0x40 if rsv & 2 else 0
+        return bytes(b)
+    return ertm_i((model.my_tx + tx_off) % 64, req, f=f) + payload
+
+
+def ertm_label(sc: bytes, window: int, primed: int) -> str:
+    """Mechanism class of a scripted frame, known from the script, the window and the number of unacknowledged
+    frames the round left outstanding (stable across seeds; used in keys)."""
+    kind, s, req_off, tx_off, p, f, rsv = sc[:7]
+    if kind == ERTM_KIND_PRIME:
+        return 'valid'
+    t = ERTM_S_NAMES[s] if kind == ERTM_KIND_S else 'iframe'
+    if req_off == 0:
+        rk = 'reqseq-current'
+    elif 64 - req_off <= min(primed, window):
+        rk = 'reqseq-partial-ack'
+    elif req_off == window:
+        rk = 'reqseq-one-window-ahead'
+    elif req_off < window:
+        rk = 'reqseq-ahead-within-window'
+    else:
+        rk = 'reqseq-ahead-beyond-window'
+    if kind == ERTM_KIND_I and tx_off:
+        rk += '+txseq-ahead' if tx_off < 32 else '+txseq-behind'
+    if rsv:
+        rk += '+reserved-bits'
+    return f'{t}-{rk}'
+
+
+def ertm_enum_scripts():
+    """Every ReqSeq offset 0..63 x frame type (RR, RNR, REJ, SREJ, I) x {plain, P/F variant}; every TxSeq offset."""
+    out = []
+    for s in range(4):
+        for off in range(64):
+            out.append(ertm_script(ERTM_KIND_S, s=s, req_off=off))
+            pf = (off + s) % 3
+            out.append(ertm_script(ERTM_KIND_S, s=s, req_off=off, p=int(pf == 0), f=int(pf == 1), rsv=(off % 4 if pf == 2 else 0)))
+    for off in range(64):
+        out.append(ertm_script(ERTM_KIND_I, req_off=off))
+        out.append(ertm_script(ERTM_KIND_I, req_off=off, f=1, tx_off=(0, 1, 63, 32)[off % 4]))
+    for off in range(1, 64):
+        out.append(ertm_script(ERTM_KIND_I, tx_off=off))
+    return out
+
+
+# ---- RFCOMM: what a hand-written responder does at each step of the victim's open_dlc() ------------------------
+# (RFCOMM 1.2 / TS 07.10 5.2.1.2, 5.4.6.3.1: PN command/response, SABM answered UA or DM, MSC after the UA)
+RFCOMM_PN_STEPS = ('accept', 'accept-small-frame', 'accept-no-credits', 'accept-other-dlci', 'accept-twice', 'refuse-dm',
+                   'silent', 'dm-other-dlci-then-accept', 'ua-then-accept', 'nsc-then-accept', 'pn-command-back-then-accept')
+RFCOMM_SABM_STEPS = ('ua', 'dm', 'silent', 'dm-other-dlci-then-ua', 'ua-other-dlci-then-ua', 'ua-twice', 'dm-dlci0',
+                     'disc', 'ua-wrong-cr')
+RFCOMM_MSC_STEPS = ('command-and-response', 'none', 'response-only', 'command-before-ua', 'other-dlci', 'with-break',
+                    'flow-off-then-on', 'rls-rpn')
+
+
+def rfcomm_open_script(pn: str, sabm: str, msc: str) -> bytes:
+    return bytes([RFCOMM_PN_STEPS.index(pn), RFCOMM_SABM_STEPS.index(sabm), RFCOMM_MSC_STEPS.index(msc)])
+
+
+def rfcomm_open_script_name(sc: bytes) -> str:
+    return f'PN:{RFCOMM_PN_STEPS[sc[0]]}/SABM:{RFCOMM_SABM_STEPS[sc[1]]}/MSC:{RFCOMM_MSC_STEPS[sc[2]]}'
+
+
+def rfcomm_open_label(sc: bytes) -> str:
+    """Mechanism class: the first step that is not the plain one."""
+    pn, sabm, msc = RFCOMM_PN_STEPS[sc[0]], RFCOMM_SABM_STEPS[sc[1]], RFCOMM_MSC_STEPS[sc[2]]
+    if pn in ('refuse-dm', 'silent'):
+        return f'pn-{pn}'
+    if sabm != 'ua':
+        return (f'pn-{pn}+' if pn != 'accept' else '') + f'sabm-{sabm}'
+    if pn != 'accept':
+        return f'pn-{pn}'
+    return f'msc-{msc}' if msc != 'command-and-response' else 'plain-open'
+
+
+def rfcomm_open_enum_scripts():
+    out = []
+    for pn in RFCOMM_PN_STEPS:
+        for sabm in RFCOMM_SABM_STEPS:
+            if pn in ('refuse-dm', 'silent') and sabm != 'ua':
+                continue        # (no SABM follows)
+            out.append(rfcomm_open_script(pn, sabm, 'command-and-response'))
+    for msc in RFCOMM_MSC_STEPS[1:]:
+        out.append(rfcomm_open_script('accept', 'ua', msc))
+        out.append(rfcomm_open_script('accept-no-credits', 'ua', msc))
+    return out
+
+
+# ---- AVDTP acceptor: boundary SEIDs and the stream state machine (AVDTP 1.3 6.x, 8.x) --------------------------
+AVDTP_SIGNAL_NAMES = {1: 'discover', 2: 'get_capabilities', 3: 'set_configuration', 4: 'get_configuration',
+                      5: 'reconfigure', 6: 'open', 7: 'start', 8: 'close', 9: 'suspend', 10: 'abort',
+                      11: 'security_control', 12: 'get_all_capabilities', 13: 'delayreport'}
+AVDTP_SBC_CODEC = bytes([7, 6, 0x00, 0x00, 0x21, 0x15, 2, 53])      # audio / SBC / 44.1 kHz joint stereo, 16 blocks, 8 subbands, loudness, bitpool 2..53
+AVDTP_SBC_CONFIG = bytes([1, 0]) + AVDTP_SBC_CODEC                  # media transport + media codec
+AVDTP_BAD_ACP_SEID, AVDTP_SEP_IN_USE, AVDTP_BAD_STATE = 0x12, 0x13, 0x31
+
+
+def avdtp_seid_cmd(label: int, signal: int, acp_seid: int, int_seid: int = 1, rfa: int = 0, more_seids=()) -> bytes:
+    """A complete, well-formed AVDTP command of `signal` addressed to `acp_seid` (6 bits, the 2 low bits of the
+    octet are RFA and set to `rfa`)."""
+    s = bytes([((acp_seid & 0x3F) << 2) | (rfa & 3)])
+    if signal == 3:
+        body = s + bytes([(int_seid & 0x3F) << 2]) + AVDTP_SBC_CONFIG
+    elif signal == 5:
+        body = s + AVDTP_SBC_CODEC
+    elif signal in (7, 9):
+        body = s + bytes((x & 0x3F) << 2 for x in more_seids)
+    elif signal == 11:
+        body = s + b'\x01\x02'
+    elif signal == 13:
+        body = s + be16(150)
+    else:
+        body = s
+    return avdtp_single(label, 0, signal, body)
+
+
+def avdtp_parse(pdu: bytes):
+    """(label, packet type, message type, signal, payload) of a single-packet AVDTP message, else None."""
+    if len(pdu) < 2 or (pdu[0] >> 2) & 3 != 0:
+        return None
+    return pdu[0] >> 4, 0, pdu[0] & 3, pdu[1] & 0x3F, pdu[2:]
+
+
+# state after an ACCEPTED command, per stream end-point (6.5 state machine; the transport channel is what the
+# initiator opens after Open and releases after Close/Abort)
+AVDTP_ON_ACCEPT = {
+    ('idle', 3): 'configured',
+    ('configured', 6): 'open',
+    ('open', 7): 'streaming',
+    ('streaming', 9): 'open',
+    ('open', 8): 'closing', ('streaming', 8): 'closing',
+    ('open', 5): 'open',
+}
+
+
+def avdtp_boundary_seids(last: int):
+    """(label, seid, valid) for the boundary values of a 6-bit SEID given `last` local end-points."""
+    return [('seid-0', 0, False), ('seid-first', 1, True), ('seid-last', last, True), ('seid-last+1', last + 1, False),
+            ('seid-0x3e', 0x3E, False), ('seid-0x3f', 0x3F, False)]
